@@ -6,6 +6,8 @@ import (
 	"testing"
 
 	"verifharness/core"
+
+	"pgregory.net/rapid"
 )
 
 // fullMix exercises every mutating call of the ID-based API.
@@ -71,6 +73,13 @@ func TestC01(t *testing.T) {
 		},
 		Mix:      mix,
 		MaxPlain: 6, MaxRel: 3,
+		Setup: func(rt *rapid.T, sim *core.Sim, g *core.Gen) {
+			// in a third of the cases targets die often, so that tables are retired and re-used (their
+			// rows must read zero again, and values written after the re-use must stay)
+			if rapid.IntRange(0, 2).Draw(rt, "retire") == 0 {
+				g.TargetRemovalPct = 40
+			}
+		},
 		Rule:    "histories of all mutating ID-based calls (create/remove/add/remove/exchange/assign/builders/relations/batch through plain and registered filters, Reset, value writes through Set, Get pointer and Query.Get) over a generated universe (1-6 plain + 0-3 relation types incl. zero-sized/padded ones, IDs placed anywhere in the ID range, capacity increment 1..128); after EVERY op every alive entity's Has/Mask/Ids/Get/GetUnchecked and value bytes are compared with the model, plus a full Query(All()) pass and the structural invariants (rows <-> index, zeroed free rows); non-trivial = a non-zero value was written to an entity that is still alive when a later structural op runs (then read back); distinct = distinct op sequences",
 		Observe: observeC01,
 	})
